@@ -390,3 +390,35 @@ func (g *Gen) Ops(n int, open bool, depth int) []Op {
 	}
 	return out
 }
+
+// Targeted returns a parent operation creating a non-empty array or map and a
+// child operation that writes into it (the shapes that can alias the parent's storage).
+func (g *Gen) Targeted() (Op, Op) {
+	name := g.pick(varNames)
+	if g.p(5) {
+		pre := Op{Op: "assign", Name: name, Rhs: g.assocRhs()}
+		switch g.R.IntN(3) {
+		case 0:
+			return pre, Op{Op: "assign", Name: name, HasIdx: true, Idx: g.idx(), App: g.p(2), Rhs: &Rhs{Kind: "str", S: g.pick(values)}}
+		case 1:
+			return pre, Op{Op: "unsetelem", Name: name, Idx: g.idx()}
+		}
+		return pre, Op{Op: "assign", Name: name, App: true, Rhs: &Rhs{Kind: "str", S: g.pick(values)}}
+	}
+	arr := g.arrRhs()
+	for len(arr.Arr) == 0 {
+		arr = g.arrRhs()
+	}
+	pre := Op{Op: "assign", Name: name, Rhs: arr}
+	switch g.R.IntN(6) {
+	case 0, 1:
+		return pre, Op{Op: "assign", Name: name, App: true, Rhs: &Rhs{Kind: "str", S: g.pick(values)}}
+	case 2:
+		return pre, Op{Op: "assign", Name: name, App: true, Rhs: g.arrRhs()}
+	case 3:
+		return pre, Op{Op: "assign", Name: name, HasIdx: true, Idx: g.idx(), App: g.p(2), Rhs: &Rhs{Kind: "str", S: g.pick(values)}}
+	case 4:
+		return pre, Op{Op: "unsetelem", Name: name, Idx: g.idx()}
+	}
+	return pre, Op{Op: "decl", Name: name, Variant: g.pick([]string{"declare", "export", "readonly"}), App: true, Rhs: &Rhs{Kind: "str", S: g.pick(values)}}
+}
